@@ -101,6 +101,8 @@ def run_shard(args):
     import hypothesis
     from hypothesis import HealthCheck, given, settings
     sys.setrecursionlimit(3000)
+    import warnings
+    warnings.filterwarnings('ignore', category=hypothesis.errors.HypothesisWarning)
     prop = load_prop(prop_id)
     known = load_known()
     ctx = Ctx(prop_id, known_open_for(prop_id, known), deadline=deadline)
